@@ -199,15 +199,15 @@ static int module_dfs(struct module *module, int visit)
     void (*func)(struct module *self);
     int res;
 
-    if (module->visited && (module->visited < visit))
+    if (module->visited > 0)
         return 0;
-    module->visited = visit;
+    module->visited = -visit;
 
     for (ii = 0; ii < module->depends.used; ++ii) {
         struct module *other = module_get(module->depends.vec[ii]);
         if (!other)
             continue;
-        if (other->visited == visit)
+        if (other->visited == -visit)
             return -1;
         res = module_dfs(other, visit);
         if (res == -1)
@@ -219,6 +219,7 @@ static int module_dfs(struct module *module, int visit)
     if (module->handle
         && (func = dlsym(module->handle, "module_post_init")))
         func(module);
+    module->visited = visit;
     return 0;
 }
 
